@@ -21,6 +21,12 @@ CHECKS = {
  "C20": dict(engine="session", cat="exploration", ref="4/C20",
    technique="deterministic simulation: histories of OnPut/Has/Put/Close on the deferred writer over a call-logging simulated stream / simulated file system; I/O-trace laziness invariant and byte-equality with a directly constructed writer after every step",
    text="After every step of every generated history: no stream write and no file before the first Put attempt; afterwards the target's bytes equal a direct writer's; callbacks fire per the registration-order model; ErrClosed after Close. Sampled histories over both targets and swarm-drawn options."),
+ "C06": dict(engine="crash", cat="fault_enumeration", ref="4/C06",
+   technique="deterministic simulation with crash injection: the session's write log on a simulated disk is cut at every write boundary and byte offset (torn last write), each crash image is reopened, queried, continued and finalized; oracle from acknowledged/invoked sets and the reference codec",
+   text="For each generated session every crash point (all boundaries; all bytes in thorough, structural bytes in quick) is enumerated, so within a session the crash dimension is covered completely; sessions (options, block mix, prior history) are sampled. Two crash points are listed as known findings (torn 24-byte header record, D10)."),
+ "C16": dict(engine="fault", cat="fault_enumeration", ref="4/C16",
+   technique="deterministic simulation with I/O fault injection: every write call of a session on the simulated disk/stream is failed once (0,err) and short-written (j,err) at every byte, the client carries on (optionally retrying), and the final image is compared with the reference encoding of exactly the acknowledged blocks",
+   text="For each generated session every single-fault plan is enumerated (plus sampled two-fault plans); sessions are sampled. The oracle is relaxed only as the property allows: after a fault the store may refuse to go on (then the archive clause is vacuous and counted separately), it may never report a failed block or return wrong bytes."),
 }
 
 NA = {
@@ -35,6 +41,8 @@ NA = {
 }
 
 ENGINES = [
+ dict(name="crash", path="harness/h/crash.go", serves_properties=["C06"], kind_free_text="crash-point enumeration over the simulated disk's mutation log, restart, recovery and continuation oracles"),
+ dict(name="fault", path="harness/h/fault.go", serves_properties=["C16"], kind_free_text="transient write-error / short-write injection at every write call and byte of a session, continuation oracle"),
  dict(name="session", path="harness/h/session.go", serves_properties=["C04", "C05", "C12", "C20"], kind_free_text="fault-free operation histories on real stores over the simulated disk, reference model + reference codec oracles"),
 ]
 
